@@ -432,14 +432,14 @@ Section C06T.
     TI (step P (mkC MWaitHead fr s)).
   Proof.
     intros (HFL & _) HA. destruct HFL as ((Hr & Hf & HS & Ht & _) & HF & HK). cbn in Hf, HK. subst fr. cbn [step c_mode c_frames c_st].
-    destruct (computed root s); [exact HA|]. unfold TI. cbn [c_mode c_st]. apply (TO_view s); [reflexivity|reflexivity|exact HA].
+    destruct (computed root s); [unfold TI in *; cbn [c_mode c_st] in *; apply (TO_view s); [apply heap_drop_sb|apply trace_drop_sb|exact HA]|]. unfold TI. cbn [c_mode c_st]. apply (TO_view s); [reflexivity|reflexivity|exact HA].
   Qed.
 
   Lemma ti_MAfterExec spec S fr s : DL root res spec S (mkC MAfterExec fr s) -> TI (mkC MAfterExec fr s) ->
     TI (step P (mkC MAfterExec fr s)).
   Proof.
     intros (HFL & _) HA. destruct HFL as ((Hr & Hf & HS & Ht & _) & HF & HK). cbn in Hf, HS, HK. subst fr. cbn [step c_mode c_frames c_st].
-    destruct (computed root s); [exact HA|]. unfold TI. cbn [c_mode c_st].
+    destruct (computed root s); [unfold TI in *; cbn [c_mode c_st] in *; apply (TO_view s); [apply heap_drop_sb|apply trace_drop_sb|exact HA]|]. unfold TI. cbn [c_mode c_st].
     destruct (SInv_continue_with_batch spec None P s HP HS) as (_ & _ & C).
     assert (Bk : task_back s (continue_with_batch P s)) by (apply continue_with_batch_task_back; apply HS).
     apply (TO_eq s); [apply cev_continue_with_batch| |exact HA].
